@@ -39,6 +39,11 @@ func genConcOp(t *sim.Tape) concOp {
 	switch t.Weighted(4, 3, 2, 2, 2, 3, 2, 1, 1) {
 	case 0: // hostile program in its own interpreter
 		p := gen.GenPS(t, hostileOpts)
+		if t.Bool(1, 5) {
+			o := hostileOpts
+			o.Files, o.Errors = true, 40
+			p = gen.GenPSWithEexec(t, o)
+		}
 		budget := []int{0, 200, 3000}[t.Choose(3)]
 		if budget == 0 {
 			budget = psSafetyBudget
@@ -142,6 +147,16 @@ mark 1 2 cleartomark count 2 copy 3 1 roll exch dup pop
 errordict /typecheck known 1 (a) add
 `)
 	sb.WriteString(dump.Err(err) + " " + dump.InterpNoDSC(in))
+	// the budget error, as a fresh instance reports it
+	lim := postscript.NewInterpreter()
+	lim.MaxOps = 25
+	err = lim.ExecuteString("1 2 add pop\n\n{ 1 pop } loop")
+	fmt.Fprintf(&sb, "\nbudget: %s NumOps=%d identity=%t", dump.Err(err), lim.NumOps, err == postscript.ErrExecutionLimitExceeded)
+	// an eexec section (hex), then clear text again
+	ee := postscript.NewInterpreter()
+	ee.MaxOps = psSafetyBudget
+	err = ee.Execute(bytes.NewReader(gen.WrapEexec(sim.ReplayTape(nil), []byte("/before 1 def\n"), []byte("/inside (x) def\nmark currentfile closefile\n"), []byte("00000000\ncleartomark /after 2 def\n"), false)))
+	sb.WriteString("\neexec: " + dump.Err(err) + " " + dump.Object(ee.UserDict))
 	cm, err := postscript.ReadCMap(strings.NewReader("/CIDInit /ProcSet findresource begin 12 dict begin begincmap /CMapName /Probe def 1 begincodespacerange <00> <ff> endcodespacerange 2 begincidrange <00> <0f> 0 <10> <1f> 100 endcidrange 1 beginbfchar <20> <0041> endbfchar 1 beginnotdefrange <00> <01> 0 endnotdefrange endcmap CMapName currentdict /CMap defineresource pop end end"))
 	sb.WriteString(dump.Err(err) + " " + dump.Object(cm))
 	f := probeFont()
@@ -208,6 +223,14 @@ func ConcHelperMain() {
 		if len(line) == 0 && err != nil {
 			return
 		}
+		if bytes.HasPrefix(line, []byte("PROBE")) {
+			// the pristine probe: this process has run nothing else
+			js, _ := json.Marshal(probeBattery())
+			out.Write(js)
+			out.WriteByte('\n')
+			out.Flush()
+			continue
+		}
 		var tape []uint32
 		if json.Unmarshal(line, &tape) != nil {
 			return
@@ -244,6 +267,22 @@ func (h *concHelper) reference(tape []uint32) ([][]string, error) {
 		return nil, err
 	}
 	return res, nil
+}
+
+// pristineProbe asks a fresh process (which has run nothing but the probe
+// battery itself) for the probe dump.
+func pristineProbe() string {
+	exe, _ := os.Executable()
+	cmd := exec.Command(exe, "C18", "helper")
+	cmd.Stdin = strings.NewReader("PROBE\n")
+	cmd.Env = append(os.Environ(), "GORACE=halt_on_error=0")
+	out, err := cmd.Output()
+	var res string
+	if err != nil || json.Unmarshal(bytes.TrimSpace(out), &res) != nil {
+		fmt.Fprintln(os.Stderr, "cannot obtain the pristine probe:", err)
+		os.Exit(3)
+	}
+	return res
 }
 
 func safeConc(op concOp) (res string) {
@@ -387,11 +426,14 @@ func C18() *sim.Check {
 	// isolation over histories: probe0 ; (polluter ; probe)*
 	var probe0 string
 	iso := &sim.Batch{Name: "isolation", Quick: 6000, Thorough: 120_000, Isolated: true, PerProc: 60, Workers: 16, Env: raceEnv, ChildTimeout: 240 * time.Second, ClassifyAbort: classifyRace, MaxShrink: 150}
-	iso.ChildInit = func() { probe0 = probeBattery() }
+	// probe0 comes from a separate pristine process; this process runs its first
+	// polluter BEFORE its first probe, so state that only the first use fixes
+	// (lazy tables, anything "burnt in" by the first error) is covered too
+	iso.ChildInit = func() { probe0 = pristineProbe() }
 	iso.Run = func(c *sim.RunCtx) *sim.Outcome {
 		t := c.T
 		if probe0 == "" {
-			probe0 = probeBattery()
+			probe0 = pristineProbe()
 		}
 		n := 1 + t.Choose(4)
 		var hist []string
@@ -401,6 +443,13 @@ func C18() *sim.Check {
 			case 0:
 				// a hostile program fed in several Execute calls, probes in between
 				p := gen.GenPS(t, hostileOpts)
+				if t.Bool(1, 4) {
+					// ... or one with an eexec-encrypted tail that fails half-way
+					o := hostileOpts
+					o.Files, o.Errors = true, 60
+					p = gen.GenPSWithEexec(t, o)
+					c.St.Inc("polluters_with_eexec")
+				}
 				cuts := []int{}
 				if len(p.Gaps) > 0 && t.Bool(1, 2) {
 					cuts = append(cuts, sim.Pick(t, p.Gaps))
